@@ -277,7 +277,7 @@ func unflatten(t types.Type, leaves []Value) Value {
 type unsupportedErr struct{ msg string }
 
 func unsupported(msg string) unsupportedErr { return unsupportedErr{msg} }
-func (u unsupportedErr) Error() string     { return "unsupported: " + u.msg }
+func (u unsupportedErr) Error() string      { return "unsupported: " + u.msg }
 
 func (e *Exec) strConst(s string) Str {
 	b := make([]*sym.Term, len(s))
